@@ -25,6 +25,22 @@ def histories(alphabet, depth, reduced=None, reduced_depth=0):
 AS_NUMPY = [False]
 
 
+
+def range_ordered(hist, pmax=1e6, pmin=1e-1):
+    """False for a history in which, after one of its letters (a __multi__ letter counts as a whole), the minimum
+    pressure of the atmosphere is not below the maximum: such a range is not an atmosphere and nothing is demanded of
+    it."""
+    cur = {'atm_max_pressure': pmax, 'atm_min_pressure': pmin}
+    for op in hist:
+        subs = op[1] if op[0] == '__multi__' else [op]
+        for name, value in subs:
+            if name in cur:
+                cur[name] = value
+        if not cur['atm_min_pressure'] < cur['atm_max_pressure']:
+            return False
+    return True
+
+
 def apply_op(m, op):
     name, value = op
     if name == '__multi__':
